@@ -942,6 +942,54 @@ def session_privacy(ctx):
     return bad
 
 
+def bucket_claim(ctx):
+    """Shared state behind the pooled sessions: a bucket counts as verified only once its listing has succeeded.
+    While the listing request of one thread is in flight (or after it failed) no other thread may find the bucket
+    in `_verified_buckets`, or its own 404 would be reported as a plain missing chunk instead of an unavailable
+    store.  Observed from inside the listing request itself, for a non-empty, an empty and a missing bucket."""
+    from katdal.chunkstore import StoreUnavailable
+    from katdal.chunkstore_s3 import S3ChunkStore
+    from harness.props.c09 import FastFakeS3
+    bad = []
+    with FastFakeS3() as s3:
+        for state in ('n', 'e', 'm'):
+            s3.reset()
+            bucket = f'claim-{state}'
+            if state in ('n', 'e'):
+                s3.buckets.add(bucket)
+            if state == 'n':
+                s3.objects[f'/{bucket}/zz-other'] = b'x'
+            store = S3ChunkStore(s3.url, timeout=(2.0, 2.0), retries=0)
+            seen = []
+            orig = store.request
+
+            def spy(method, url, *args, _orig=orig, _store=store, _seen=seen, **kwargs):
+                if kwargs.get('params') == {'max-keys': 1}:
+                    _seen.append(any(b.rstrip('/').endswith('/' + bucket) for b in _store._verified_buckets))
+                return _orig(method, url, *args, **kwargs)
+            store.request = spy
+            try:
+                store.get_chunk(f'{bucket}/x', (slice(0, 2),), np.uint8)
+                outcome = 'data'
+            except StoreUnavailable:
+                outcome = 'unavailable'
+            except Exception as e:   # noqa: BLE001
+                outcome = type(e).__name__
+            after = any(b.rstrip('/').endswith('/' + bucket) for b in store._verified_buckets)
+            what = None
+            if any(seen):
+                what = (f'bucket ({ {"n": "non-empty", "e": "empty", "m": "missing"}[state]}) is already marked verified '
+                        f'while its listing request is still in flight: a second thread hitting a 404 in that window '
+                        f'reports a missing chunk where a single thread gets {outcome}')
+            elif state != 'n' and after:
+                what = f'bucket ({state}) is marked verified although its listing failed ({outcome})'
+            ctx.tag('bucket-claim')
+            ctx.count(('bucket-claim', state), True, sample={'object': 's3-bucket-claim', 'state': state})
+            if what:
+                bad.append((dict(object='session-privacy', check='bucket-claim', state=state), what))
+    return bad
+
+
 # ------------------------------------------------------------------------------------------------
 # entry points
 
@@ -975,6 +1023,8 @@ def run(ctx):
     for case, what in load_compare(ctx):
         ctx.violation(case, what)
     for case, what in session_privacy(ctx):
+        ctx.violation(case, what)
+    for case, what in bucket_claim(ctx):
         ctx.violation(case, what)
     ctx.assumptions = ['one source line of the anchored methods is the unit of interleaving',
                        'a transition observed between two yield points may bundle up to %d model steps of the '
